@@ -27,6 +27,11 @@ def main():
         except tsx.CombLoop as e:
             print("REPRODUCED: combinational loop:", str(e)[:300])
             sys.exit(1)
+        except tsx.HarnessError:
+            raise
+        except Exception as e:      # the library refuses to build the configuration (elaboration-verdict violations)
+            print(f"REPRODUCED: building the design raises {type(e).__name__}: {str(e).strip()[:300]}")
+            sys.exit(1)
         path = [tuple(x) for x in rp["path"]]
         out = tsx.replay_path(drv, h, path)
         for k, x in enumerate(path):
